@@ -177,6 +177,42 @@ impl FragmentAssembler {
     let writer_sn = datafrag.writer_sn;
     let frag_size = self.fragment_size;
 
+    // Sanity checks. DATAFRAG comes from the network, so it can claim anything.
+    // The fragment numbers it carries must exist in the sample it describes, and
+    // it must agree with the assembly already in progress for this sequence
+    // number (if any). Otherwise we would index outside of the assembly buffer.
+    let fragment_count = usize::from(datafrag.total_number_of_fragments());
+    let first_frag = usize::from(datafrag.fragment_starting_num);
+    let frags_in_submessage = usize::from(datafrag.fragments_in_submessage);
+    if first_frag < 1
+      || frags_in_submessage < 1
+      || first_frag - 1 + frags_in_submessage > fragment_count
+      || datafrag.fragment_size != frag_size
+    {
+      warn!(
+        "Discarding inconsistent DATAFRAG: sn={:?} fragment_starting_num={} \
+         fragments_in_submessage={} fragment_size={} (expected {}) data_size={}",
+        writer_sn,
+        first_frag,
+        frags_in_submessage,
+        datafrag.fragment_size,
+        frag_size,
+        datafrag.data_size
+      );
+      return None;
+    }
+    if let Some(existing) = self.assembly_buffers.get(&writer_sn) {
+      if existing.buffer_bytes.len() != datafrag.data_size as usize {
+        warn!(
+          "Discarding DATAFRAG sn={:?}: data_size={} does not match assembly in progress ({})",
+          writer_sn,
+          datafrag.data_size,
+          existing.buffer_bytes.len()
+        );
+        return None;
+      }
+    }
+
     let assembly_buffer = self
       .assembly_buffers
       .entry(datafrag.writer_sn)
